@@ -107,6 +107,23 @@ def check_replica_params(ctx, gp):
 
 
 # ------------------------------------------------------------------------------------------------ S5 oracle
+def table_is_v_shaped(table):
+    """hypothesis of the convergence theorem (Proofs/C04_conv.v) on the points a run actually evaluated: sorted by position the
+    finite costs strictly decrease to a minimum and strictly increase after it.  Costs at the binary64 noise floor of the
+    mismatch: differences below 1e-6 of the largest cost (+ 1e-6 rad/m) are not counted, there the evaluation error decides the order"""
+    pts = {}
+    for x, c in table:
+        if is_finite_hex(c):
+            pts[fl(x)] = fl(c)
+    floor = (1e-6 * max(pts.values()) + 1e-6) if pts else 0.0
+    xs = sorted(pts)
+    if len(xs) < 3:
+        return True
+    cs = [pts[x] for x in xs]
+    k = cs.index(min(cs))
+    return all(cs[j] > cs[j + 1] - floor for j in range(k)) and all(cs[j] < cs[j + 1] + floor for j in range(k, len(cs) - 1))
+
+
 def oracle_poling(ctx, obs, cases):
     zero_idx = {}
     for o in obs:
@@ -169,6 +186,8 @@ def oracle_poling(ctx, obs, cases):
         elif o["compute_sign_positive"] != (not (z0 < 0)):
             ctx.violation("S5", f"compute_sign is not the sign of the unpoled dkz ({z0!r})", {"kind": "poling_sign", "route": "compute_sign"}, rep)
         rx = o["replica"]["result"]
+        if o["replica"]["table"]:
+            ctx.count("poling: evaluated costs V-shaped (hypothesis of the convergence theorem): " + ("yes" if table_is_v_shaped(o["replica"]["table"]) else "no"))
         if r["class"] == "ok":
             p = fl(r["value"])
             if p == float("inf"):
@@ -244,6 +263,9 @@ def oracle_theta(ctx, obs, cases):
             ctx.violation("S5", "SPDC::assign_optimum_crystal_theta and CrystalSetup::optimum_theta disagree", {"kind": "theta_routes"}, rep)
         if not (0 <= th <= math.pi / 2):
             ctx.violation("S5", f"auto crystal angle {math.degrees(th)!r} deg is outside [0, 90] deg", {"kind": "theta_range"}, rep)
+        if o["replica"]["table"]:
+            ctx.count(("theta[BiBO_1]" if i["crystal"] == "BiBO_1" else "theta[other crystals]") + ": evaluated costs V-shaped: "
+                      + ("yes" if table_is_v_shaped(o["replica"]["table"]) else "no"))
         res = o["residual"]
         if good_roots:
             if not res or not is_finite_hex(res["dkz"]):
@@ -355,9 +377,9 @@ def run(ctx):
         ctx.proof_failures.append(("Gen/AutoCalc.v", "translator", m))
     proved = (not msgs) and prove(ctx, "C04", extra_targets=["Proofs/C04_cases.vo"])
     if not msgs:
-        okf, _, _ = coq_build(ctx, ["Findings/C04_findings.vo"])
+        okf, _, _ = coq_build(ctx, ["Findings/C04_findings.vo", "Findings/C04_bibo_kink.vo"])
         if not okf:
-            ctx.note("findings F4 / F4b no longer reproduce on the model: Findings/C04_findings.v does not compile")
+            ctx.note("findings F4 / F4b no longer reproduce on the model: Findings/C04_findings.v / C04_bibo_kink.v do not compile")
     check_replica_params(ctx, gen_params(ctx))
     quick = ctx.tier == "quick"
     nm_obs = run_harness(ctx, binp, ["c04", "nm", ctx.seed, 280 if quick else 2800])
@@ -397,10 +419,13 @@ def run(ctx):
         "sign of the period = sign of unpoled dkz, |period| <= L": "proved",
         "collinear: period = 2 pi/|dkz unpoled| and nulls the mismatch": "proved (real-number model, any simplex operations) + measured 1e-9",
         "error rather than a period when no period <= L phase-matches": "proved_partial (seed more than 1 um above L => Err; result above L => Err); REFUTED in the window L < 2 pi/|dkz0| <= L + 1 um (F4b)",
-        "|dkz| L/2 < 1e-3 at the returned period": "proved_partial (conditional on the simplex contract cost < 2e-3/L, checked per input)",
+        "|dkz| L/2 < 1e-3 at the returned period": "proved_partial: conditional on the simplex contract cost < 2e-3/L (checked per input); the contract itself is proved "
+                                                     "for exact arithmetic when dkz(period) is strictly monotone on the bounds (C04_nm_run_converges: error <= 2 * 2^J * 1e-6 / 2^m "
+                                                     "after J + 1 + 2 m iterations unless the sd test stops earlier; the V shape of the evaluated costs is checked per input)",
         "auto angle in [0, 90] deg": "proved",
         "|dkz| L/2 < 1e-3 at the auto angle when some angle phase-matches": "proved_partial (same contract; fails for F4)",
-        "argmin / binary64": "modelled line by line for two vertices; NaN costs not modelled (C17)"}
+        "argmin / binary64": "modelled line by line for two vertices; NaN costs not modelled (C17); the binary64 instance refines the real instance "
+                             "wherever every operation is exact (C04_float_refines_real, via C04_nm_simulation)"}
     return finish(ctx, assumptions=["argmin 0.10 NelderMead/Executor are modelled for two vertices from their source; the model is validated bit-exactly each run, not proved equal",
                                     "the residual clauses are conditional on the simplex contract (convergence of a direct search is not a theorem; see Findings/C04_findings.v)",
                                     "NaN costs (panic path) are out of scope (C17)"])
